@@ -4,6 +4,7 @@ import (
 	"bytes"
 	"context"
 	"fmt"
+	"io"
 	"os"
 	"strings"
 	"time"
@@ -256,7 +257,16 @@ func runC06History(evs []c06Ev, ackMs, maxRt, nstart int) string {
 				req.SetCode(codes.POST)
 				r.code = int(codes.POST)
 				req.SetContentFormat(message.AppOctets)
-				req.SetBody(bytes.NewReader(genBody(e.ID, e.PLen)))
+				body := bytes.NewReader(genBody(e.ID, e.PLen))
+				// the application may have read (part of) the body before issuing the request: every copy
+				// on the wire still carries the whole payload
+				switch (e.ID + e.PLen) % 3 {
+				case 1:
+					_, _ = body.Seek(int64(e.PLen/2), io.SeekStart)
+				case 2:
+					_, _ = body.Seek(0, io.SeekEnd)
+				}
+				req.SetBody(body)
 			}
 			go func(id int) {
 				defer func() {
